@@ -23,3 +23,18 @@ def exWide : Tree :=
 def exBin : BTree := .node 0 ['1'] [] .nil (.node 1 ['2'] [] .nil .nil)
 
 end Query
+
+namespace Query
+
+/-- a(ab(b), b, ba(ab)): repeated names across branches, names that are suffixes of others;
+    attributes on some nodes -/
+def exNamed : Tree :=
+  .node 0 ['a'] [(['k'], .int 1)] [
+    .node 1 ['a', 'b'] [] [.node 2 ['b'] [(['k'], .bool true)] []],
+    .node 3 ['b'] [(['k'], .int 2)] [],
+    .node 4 ['b', 'a'] [] [.node 5 ['a', 'b'] [(['k'], .int 1)] []]]
+
+/-- BinaryNode a with an empty left slot and right child b -/
+def exBinNamed : BTree := .node 0 ['a'] [] .nil (.node 1 ['b'] [] .nil .nil)
+
+end Query
